@@ -10,6 +10,7 @@
    is every run of every history.  Times are nanoseconds (Z); [first_seen parse prefix h n] is when
    the worker first saw [n], forgotten whenever a successful listing does not contain [n] as a
    snapshot candidate. *)
+From LS Require Instance.Model Instance.SyncLoop Instance.Committed.
 From LS Require Import Base.Bytes Cleaner.Model Cleaner.Proofs.
 From Coq Require Import Permutation.
 Open Scope Z_scope.
@@ -136,6 +137,37 @@ Theorem C12_out_of_order_refuted :
     ~ (cf_rem cf < now - c_ts c).
 Proof. exact out_of_order_witness. Qed.
 Print Assumptions C12_out_of_order_refuted.
+
+(* ---- the wiring in the sync loop (executable loop machine, replayed against the real syncLoop) ----
+   the cleaner's "committed" table is written only by a SUCCESSFUL upload of an own snapshot, with exactly the
+   snapshots merged so far; a failed upload (retry budget exhausted), a receive-only instance and LoadOnce never
+   write it *)
+Theorem C12_committed_only_after_store : forall c s s' r,
+  LS.Instance.SyncLoop.send_once c s = (s', r) ->
+  LS.Instance.SyncLoop.l_last_by s' = LS.Instance.SyncLoop.l_last_by s /\
+  match r with
+  | Some _ =>
+      if LS.Instance.Model.i_receive_only c
+      then LS.Instance.SyncLoop.l_committed s' = LS.Instance.SyncLoop.l_committed s /\
+           LS.Instance.SyncLoop.l_stores s' = LS.Instance.SyncLoop.l_stores s
+      else LS.Instance.SyncLoop.l_committed s' = LS.Instance.SyncLoop.l_last_by s /\
+           exists x, LS.Instance.SyncLoop.l_stores s' = x :: LS.Instance.SyncLoop.l_stores s
+  | None => LS.Instance.SyncLoop.l_committed s' = LS.Instance.SyncLoop.l_committed s /\
+            LS.Instance.SyncLoop.l_stores s' = LS.Instance.SyncLoop.l_stores s
+  end.
+Proof. exact LS.Instance.Committed.send_once_committed. Qed.
+Print Assumptions C12_committed_only_after_store.
+Theorem C12_load_never_commits : forall c s u s' r,
+  LS.Instance.SyncLoop.load_once c s u = (s', r) ->
+  LS.Instance.SyncLoop.l_committed s' = LS.Instance.SyncLoop.l_committed s /\
+  LS.Instance.SyncLoop.l_stores s' = LS.Instance.SyncLoop.l_stores s /\
+  match r with
+  | Some _ => LS.Instance.SyncLoop.l_last_by s' =
+              LS.Instance.SyncLoop.assoc_set (LS.Instance.SyncLoop.l_last_by s) (LS.Instance.SyncLoop.u_inst u) (LS.Instance.SyncLoop.u_ts u)
+  | None => LS.Instance.SyncLoop.l_last_by s' = LS.Instance.SyncLoop.l_last_by s
+  end.
+Proof. exact LS.Instance.Committed.load_once_committed. Qed.
+Print Assumptions C12_load_never_commits.
 
 (* ---- non-vacuity ---- *)
 (* database "d" (prefix "d__" = [100;95;95]); instance [7] has an old and a new snapshot, instance
